@@ -124,6 +124,7 @@ func propC11(rec *stats.Rec, sc *scratch, exclude map[string]bool) func(t *rapid
 		}
 		cache, _ := cdi.NewCache(cdi.WithSpecDirs(dirs...), cdi.WithAutoRefresh(true))
 		defer cache.Configure(cdi.WithAutoRefresh(false))
+		undecidedIfNoInotify(t, cache)
 
 		var history []c11Step
 		labels := map[string]bool{}
@@ -326,4 +327,115 @@ func propC11(rec *stats.Rec, sc *scratch, exclude map[string]bool) func(t *rapid
 
 func TestC11Rapid(t *testing.T) {
 	rapid.Check(t, propC11(stats.For("C11", "rapid"), newScratch(t), nil))
+}
+
+// c11Script is a fixed history with explicit pacing (regression files).
+type c11Script struct {
+	Dirs  []string   `json:"dirs"` // configured directories, relative to the sandbox root
+	Steps []c11SStep `json:"steps"`
+}
+
+type c11SStep struct {
+	Op      string `json:"op"` // start, mkdir, rmdir, write, create-empty, movein, link, remove, rename, query, lock, unlock, sleep
+	Path    string `json:"path,omitempty"`
+	To      string `json:"to,omitempty"`
+	Content string `json:"content,omitempty"` // "valid:<dev>", "invalid", "empty"
+	Ms      int    `json:"ms,omitempty"`
+}
+
+func c11ScriptContent(c string, n int) []byte {
+	switch {
+	case strings.HasPrefix(c, "valid:"):
+		return []byte(fmt.Sprintf(`{"cdiVersion":"0.3.0","kind":"v1.com/gpu","devices":[{"name":"%s","containerEdits":{"env":["M=%d"]}}]}`, c[6:], n))
+	case c == "invalid":
+		return []byte("{bad")
+	}
+	return []byte{}
+}
+
+func runC11Script(root string, sc c11Script) (ok bool, got, want string) {
+	var dirs []string
+	for _, d := range sc.Dirs {
+		dirs = append(dirs, filepath.Join(root, d))
+	}
+	outside := filepath.Join(root, "outside")
+	_ = os.MkdirAll(outside, 0o755)
+	// directories that a "mkdir" step at position 0.. creates before the cache exists are created by the script itself
+	var cache *cdi.Cache
+	for i, st := range sc.Steps {
+		p, to := filepath.Join(root, st.Path), filepath.Join(root, st.To)
+		switch st.Op {
+		case "start":
+			cache, _ = cdi.NewCache(cdi.WithSpecDirs(dirs...), cdi.WithAutoRefresh(true))
+			for _, e := range cache.GetSpecDirErrors() {
+				if strings.Contains(e.Error(), "failed to create watcher") {
+					_ = cache.Configure(cdi.WithAutoRefresh(false))
+					return false, "", "VERIF-UNDECIDED no inotify instance left in this environment"
+				}
+			}
+		case "mkdir":
+			_ = os.MkdirAll(p, 0o755)
+		case "rmdir":
+			_ = os.RemoveAll(p)
+		case "write":
+			_ = os.WriteFile(p, c11ScriptContent(st.Content, i), 0o644)
+		case "create-empty":
+			f, err := os.OpenFile(p, os.O_CREATE|os.O_EXCL|os.O_WRONLY, 0o644)
+			if err == nil {
+				_ = f.Close()
+			}
+		case "movein", "link":
+			src := filepath.Join(outside, fmt.Sprintf("src%d", i))
+			_ = os.WriteFile(src, c11ScriptContent(st.Content, i), 0o644)
+			if st.Op == "movein" {
+				_ = os.Rename(src, p)
+			} else {
+				_ = os.Remove(p)
+				_ = os.Link(src, p)
+			}
+		case "remove":
+			_ = os.Remove(p)
+		case "rename":
+			_ = os.Rename(p, to)
+		case "query":
+			_ = cache.ListDevices()
+		case "lock": // hold the cache mutex: the watcher goroutine cannot handle events until "unlock"
+			cache.Lock()
+		case "unlock":
+			cache.Unlock()
+		case "sleep":
+			time.Sleep(time.Duration(st.Ms) * time.Millisecond)
+		}
+	}
+	if cache == nil {
+		return false, "", "script has no start step"
+	}
+	defer cache.Configure(cdi.WithAutoRefresh(false))
+	ok, got, want, _ = converge(cache, dirs, 10*time.Second)
+	return ok, got, want
+}
+
+func TestC11Regress(t *testing.T) {
+	rec := stats.For("C11", "regress")
+	sc := newScratch(t)
+	for _, rc := range loadRegressions(t, "C11") {
+		var s c11Script
+		if err := json.Unmarshal(rc.Case, &s); err != nil {
+			t.Fatalf("bad C11 regression: %v", err)
+		}
+		reps := envInt("VERIF_C11_REPLAY_REPS", 3)
+		for i := 0; i < reps; i++ {
+			root := sc.dir()
+			ok, got, want := runC11Script(root, s)
+			os.RemoveAll(root)
+			if !ok && strings.HasPrefix(want, "VERIF-UNDECIDED") {
+				t.Fatalf("%s", want)
+			}
+			if !ok {
+				p := saveReplay("C11", "script", s)
+				t.Fatalf("C11 violated on regression [%s]: 10 s after the last change the cache still differs from a fresh one\ncache:\n%s\nfresh:\n%s\nreplay: %s", rc.Note, got, want, p)
+			}
+		}
+		rec.Case(true, canonJSON(s), func() any { return s }, "regression")
+	}
 }
